@@ -158,10 +158,13 @@ def reconnect(how, mid, lg, am, name):
     return res, events
 
 
+NAMED_IDS = (4, 5)     # module ids that have a MID_* constant in the core definitions (a caller who gives no name gets that one)
+
+
 def main():
     out = []
     for how in ("disconnect", "close", "reset", "while-connected"):
-        for mid, lg, am, name in itertools.product((0, 12), (False, True), (False, True), ("", "nm")):
+        for mid, lg, am, name in itertools.product((0, 12, 5), (False, True), (False, True), ("", "nm")):
             (r1, r2), ev = reconnect(how, mid, lg, am, name)
             want = dict(first_request=mid, second_request=mid, adopted_1=150 if mid == 0 else mid, adopted_2=151 if mid == 0 else mid,
                         allow_multiple_2=int(am), logger_2=int(lg), name_2=name)
@@ -170,10 +173,12 @@ def main():
                        name_2=r2.get("name"))
             if how in ("close", "reset"):
                 want["loss"] = ["ConnectionLost"]; got["loss"] = ev
+            if name == "" and mid in NAMED_IDS:
+                want.pop("name_2"); got.pop("name_2")     # no name given for an id that has one: the client picks it
             out.append(dict(entry="reconnect-after-" + how, args=dict(module_id=mid, logger=lg, allow_multiple=am, name=name),
                             want=want, got=got))
     for entry in ("Client.connect", "client_context"):
-        for mid, lg, dm, am, name in itertools.product((0, 12), (False, True), (False, True), (False, True), ("", "nm")):
+        for mid, lg, dm, am, name in itertools.product((0, 12, 4, 5), (False, True), (False, True), (False, True), ("", "nm", "bench_quick")):
             if entry == "client_context" and dm:
                 continue      # client_context has no daemon option
             kw = dict(module_id=mid, logger=lg, daemon=dm, allow_multiple=am, name=name)
@@ -186,6 +191,8 @@ def main():
                            mod_id=r["v2"]["mod_id"], name=r["v2"]["name"])
             if "v1" in r:
                 got.update(v1_logger=r["v1"]["logger"], v1_daemon=r["v1"]["daemon"])
+            if name == "" and mid in NAMED_IDS:
+                want.pop("name", None); got.pop("name", None)
             out.append(dict(entry=entry, args=kw, want=want, got=got))
     json.dump(out, sys.stdout)
 
